@@ -6,6 +6,8 @@
    and that the result slot is written once. *)
 From Compio.Model Require Import Base DriverKeys.
 From Compio.Thm Require Import DriverKeysThm.
+From Compio.Model Require Import PollDrv.
+From Compio.Thm Require Import PollDrvThm.
 
 (* the cancel request goes through the same overflow loop as any entry:
    for every capacity >= 1 it is queued or submitted, never dropped *)
@@ -288,3 +290,20 @@ Example C05_nonvacuous_run :
   = [0; 3;  2;2;0;0;  2;2;0;0;  3;1;0;0;  1; 0;  1;1; 1;1; 0;1;  1; 1;1]%N.
 Proof. vm_compute. reflexivity. Qed.
 Print Assumptions C05_nonvacuous_run.
+
+(* ---- polling driver: cancellation is local to the cancelled operation
+   (model/PollDrv.v remove_one) ---- *)
+Theorem C05_poll_cancel_keeps_other_waiters : forall s k fd q,
+  alookup (reg s) fd = Some q ->
+  let q' := get_q (fst (remove_one s k fd)) fd in
+  rq q' = filter (fun x => negb (Nat.eqb x k)) (rq q) /\
+  wq q' = filter (fun x => negb (Nat.eqb x k)) (wq q).
+Proof. exact remove_one_keeps_others. Qed.
+Print Assumptions C05_poll_cancel_keeps_other_waiters.
+
+(* ... and the invariant "armed iff waiting, user data queued" survives any mix of
+   cancellations with pushes and readiness events *)
+Theorem C05_poll_invariant_every_reachable_state : forall os,
+  PollDrv.PInv (fold_left PollDrv.pstep os PollDrv.pinit).
+Proof. exact reachable_pinv. Qed.
+Print Assumptions C05_poll_invariant_every_reachable_state.
